@@ -322,8 +322,8 @@ prop(
     technique="Lean 4 proof on the cursor LTS (Next false is stable, a decided terminal state is immutable, Err is correct at the deciding step, Close idempotent) + schedule exploration of Next/Close/cancel/failures on the real cursor",
     design_ref="DESIGN.md section 4 C20",
     text="Machine-checked over every event sequence of the cursor LTS: once Next has returned false no row is produced again; a decided terminal state never changes (Close after the end, repeated Close); at the step that decides it, Err is nil only if nothing failed, "
-         "is the context error if the Query context was canceled when Close or the terminating Next ran, and otherwise carries every recorded failure (none can be recorded later: the pipeline has exited). Partial: 'Next eventually returns false' is liveness, monitored. "
-         "Schedules with cancel/Close at every position (also concurrently with Next), stalls, OpenFile/Read/iterator failures and never-started/started/stopped engines are run on the real cursor.",
+         "is the context error if the Query context was canceled when Close or the terminating Next ran, and otherwise carries every recorded failure (none can be recorded later: the pipeline has exited); a Next that begins after the Query context has ended never decides 'complete', even while the cancellation has not yet reached the cursor's derived context (C20_canceled_before_next; asynchronous propagation is part of the model). Partial: 'Next eventually returns false' is liveness, monitored. "
+         "Schedules with cancel / deadline expiry (through a non-standard Context type) / Close at every position (also concurrently with Next), stalls, OpenFile/Read/iterator failures and never-started/started/stopped engines are run on the real cursor.",
     trusted_base=QUERY_TB,
     assumptions=["'canceled' = the Query context was done before the deciding call began (a cancellation racing with a clean completion may report either)"],
 )
@@ -365,7 +365,7 @@ prop(
     technique="Lean 4 proof on the read-plan model (open requires surviving blocks and a passing file filter; a row read requires prefilter and block-filter pass; no region read without conditions) + comparison of every read extent of the auditing store with the plan",
     design_ref="DESIGN.md section 4 C24",
     text="Machine-checked for the plan; on real layouts every OpenFile and every successful read extent [offset, length) logged by the auditing DataStore during fault-free, uncancelled queries must be explained by the plan: only planned files are opened, row data is read only of blocks the plan scans, "
-         "the block filter region is read only when the query has bloom/regex conditions and a candidate block has a section, and every extent lies inside a declared row-data extent or the filter region. The chunk bounds themselves are proved under C19.",
+         "the block filter region is read only when the query has bloom/regex conditions and a candidate block has a section, and every extent lies inside a declared row-data extent or the filter region. The chunk bounds themselves are proved under C19. The expectations are computed from the Lean pruneBloom (compared with the implementation's prune query); planBlockFilterReads (its hasSections latch) and evaluatePrefilterCondition are regenerated from the Go source on every run and proved equal to the model (Bridge/PlanReads, Bridge/PreCond). Directed layouts: ranges starting/ending exactly on the prefilter's bound, one-sided saturated ranges, files mixing sectioned and sectionless blocks, regex trees over files lacking some of their fields.",
     trusted_base=QUERY_TB, assumptions=["'no bloom or regex conditions' = both expressions absent (DESIGN.md section 3)"],
 )
 
